@@ -76,6 +76,19 @@ func VerifC09Publish() {
 			sf = nil
 		}
 	}
+	var uf GenericFuture
+	var uid packet.ID
+	if perr == nil && vBool("unsubscribe") {
+		var uerr error
+		uf, uerr = cl.Unsubscribe("b")
+		if uerr == nil {
+			uid = conn.sentAt(conn.sentCount() - 1).(*packet.Unsubscribe).ID
+			vAssert(uid != pid && uid != sid && uid != 0, "distinct requests use distinct packet ids")
+		} else {
+			uf = nil
+		}
+	}
+	unsDone := uf == nil
 	gotRec := false
 	pubDone := perr != nil || q == 0
 	subDone := sf == nil
@@ -136,6 +149,12 @@ func VerifC09Publish() {
 		if sf != nil && !subDone {
 			vAssert(futureState(sf) == "pending", "the subscribe future completes only with its own SUBACK")
 		}
+		if uf != nil && id == uid && kind != 1 && !unsDone {
+			unsDone = true
+		}
+		if uf != nil && !unsDone {
+			vAssert(futureState(uf) == "pending", "the unsubscribe future completes only with its own UNSUBACK")
+		}
 	}
 	_ = gotRec
 	if conn.alive() {
@@ -149,6 +168,10 @@ func VerifC09Publish() {
 			if subBySuback {
 				vAssert(len(sf.ReturnCodes()) == 1, "return codes are those of the SUBACK")
 			}
+		}
+		if uf != nil && unsDone {
+			vCover("c09-unsubscribe-acked")
+			vAssert(futureState(uf) == "done", "the unsubscribe future completes with its UNSUBACK")
 		}
 	}
 	// C09.end: whatever happened, ending the client resolves every future and returns
@@ -168,6 +191,9 @@ func VerifC09Publish() {
 	if sf != nil {
 		vAssert(futureState(sf) != "pending", "no subscribe future is left unresolved when the client ends")
 		_ = sf.ReturnCodes() // accessors never panic
+	}
+	if uf != nil {
+		vAssert(futureState(uf) != "pending", "no unsubscribe future is left unresolved when the client ends")
 	}
 	_ = cf.SessionPresent()
 	_ = cf.ReturnCode()
